@@ -6,15 +6,20 @@
   moves enter move lists, principal variations and `_best_move`: an executable acceptor over the events the
   CHESSPP_VERIF hooks emit.  Each guard mirrors one code site of engine/search.cpp:
 
-    MOVES ply l     the node's move list is a permutation of the generated legal moves (root: of the root moves)
+    ENTER ply       one ply deeper, or the same Info slot again (quiescence, internal iterative deepening) with no move made
+    MOVES ply l     the node's move list is a permutation of the generated legal moves (root: of the root moves, all generated)
     DO ply m        m is in the node's list                       (search.cpp: begin[move_count])
     PV_SET ply m    m is in the node's list                       (TT exact hit guarded by std::find; begin[0] fallback)
-    PV_ADD ply m    m is the move just searched from this node; pv[ply] := m :: pv[ply+1]
+    PV_ADD ply m    m is the move just searched from this node AND a node one ply deeper was visited under it (so pv[ply+1]
+                    was cleared and rewritten from the position after m); pv[ply] := m :: pv[ply+1]
+    PV_SET / PV_ADD only after this visit cleared its slot (clear_pv_list is the first thing a node does)
     TT_CUT ply m    m is in the node's list                       (std::find(begin, end, move) != end)
     ITER_DONE d     only with the stop flag unseen; BEST_SET takes the head of pv[0]
     BESTMOVE m      m is the recorded best move; exactly once, last
 
-  Positions are advanced with the MODEL's doMove/doNull (so the trace is also a do/undo balance check: C03).
+  Positions are advanced with the MODEL's doMove/doNull; UNDO returns to the position recorded at node entry (`npos`),
+  which is what the engine's undo_move does by C03.  Lemmas/TracePV.lean proves that these guards suffice: every principal
+  variation an accepted trace reports is a line of generated moves from the root.
 -/
 import ChessVerif.Model.Movegen
 import ChessVerif.Model.Text
@@ -43,16 +48,17 @@ inductive Ev
 
 structure Frame where
   ply : Nat
+  npos : Position := {}               -- ghost: the model position at which this node was entered
   moves : Option (List Nat) := none
   current : Option Nat := none        -- move done and not yet undone
   lastSearched : Option Nat := none   -- last move undone (what PV_ADD may prepend)
   nullDone : Bool := false
   cleared : Bool := false             -- clear_pv_list ran for this visit (search.cpp: first thing after the ply is set)
-  deriving Repr, Inhabited
+  childDone : Bool := false           -- a node one ply deeper was visited (and has returned) under the current / last searched move
+  deriving Inhabited
 
 structure AState where
   pos : Position
-  saved : List Position := []          -- positions to restore on UNDO / NULL_UNDO
   frames : List Frame := []            -- innermost first
   pv : List (List Nat) := List.replicate 90 []   -- pv[ply]
   root : Position
@@ -77,18 +83,28 @@ def sameMembers (a b : List Nat) : Bool := a.length = b.length && a.all (b.conta
 
 def T0 : ZTable := zeroTable
 
+/-- what the parent frame looks like after a node above it has returned: `childDone` says whether that node was one ply
+    deeper and was searched under a real move (so that pv[ply+1] is a line from the position after that move) -/
+def afterChild (g : Frame) (childPly : Nat) : Frame := { g with childDone := decide (g.ply + 1 = childPly) && g.current.isSome }
+
 /-- one transition; `Except String` carries the reason for rejection -/
 def stepEv (s : AState) (e : Ev) : Except String AState :=
   match e with
   | .enter ply _ _ =>
       match s.frames with
-      | [] => if ply = 0 then pure { s with frames := [{ ply := 0 }], maxPly := max s.maxPly ply,
+      | [] => if ply = 0 then pure { s with frames := [{ ply := 0, npos := s.pos }], maxPly := max s.maxPly ply,
                                              visitsAfterStop := s.visitsAfterStop + (if s.stopDelivered then 1 else 0) }
               else throw "enter: first frame not at ply 0"
-      | f :: _ =>
-          if ply = f.ply + 1 ∨ ply = f.ply then
-            pure { s with frames := { ply := ply } :: s.frames, maxPly := max s.maxPly ply,
+      | f :: rest =>
+          if ply = f.ply + 1 then
+            pure { s with frames := { ply := ply, npos := s.pos } :: f :: rest, maxPly := max s.maxPly ply,
                           visitsAfterStop := s.visitsAfterStop + (if s.stopDelivered then 1 else 0) }
+          else if ply = f.ply then
+            -- same Info slot again (quiescence at depth 0, internal iterative deepening): only with no move made
+            if f.current.isSome ∨ f.nullDone then throw "enter: same-ply re-entry while a move is made"
+            else pure { s with frames := { ply := ply, npos := s.pos } :: { f with lastSearched := none, childDone := false } :: rest,
+                               maxPly := max s.maxPly ply,
+                               visitsAfterStop := s.visitsAfterStop + (if s.stopDelivered then 1 else 0) }
           else throw s!"enter: ply {ply} under frame at ply {f.ply}"
   | .exit ply v =>
       match s.frames with
@@ -96,16 +112,19 @@ def stepEv (s : AState) (e : Ev) : Except String AState :=
           if f.ply ≠ ply then throw "exit: ply mismatch"
           else if f.current.isSome ∨ f.nullDone then throw "exit: a move is still made"
           else if !f.cleared then throw "exit: node returned without clearing its pv slot on entry"
-          else pure { s with frames := rest, exits := if ply = 0 ∧ rest.isEmpty then v :: s.exits else s.exits,
+          else pure { s with frames := (match rest with | [] => [] | g :: rest' => afterChild g f.ply :: rest'),
+                             exits := if ply = 0 ∧ rest.isEmpty then v :: s.exits else s.exits,
                              worstExit := max s.worstExit (if v < 0 then -v else v) }
       | [] => throw "exit: no frame"
   | .moves ply l =>
       match s.frames with
       | f :: rest =>
           if f.ply ≠ ply then throw "moves: ply mismatch"
+          else if f.current.isSome ∨ f.nullDone then throw "moves: list fixed while a move is made"
           else
-            let expected := if ply = 0 then s.rootMoves else genMoves s.pos
-            if sameMembers l expected then
+            let gen := genMoves s.pos
+            let expected := if ply = 0 then s.rootMoves else gen
+            if sameMembers l expected && l.all (gen.contains ·) then
               pure { s with frames := { f with moves := some l } :: rest,
                             expandedAfterStop := s.expandedAfterStop + (if s.stopDelivered then 1 else 0) }
             else throw s!"moves: list at ply {ply} is not the generated move list"
@@ -119,29 +138,29 @@ def stepEv (s : AState) (e : Ev) : Except String AState :=
             | none => throw "do: before the move list"
             | some l =>
                 if l.contains m then
-                  pure { s with pos := (doMove T0 s.pos m).1, saved := s.pos :: s.saved,
-                                frames := { f with current := some m } :: rest }
+                  pure { s with pos := (doMove T0 s.pos m).1,
+                                frames := { f with current := some m, childDone := false } :: rest }
                 else throw s!"do: move {m} not in the node's list"
       | [] => throw "do: no frame"
   | .undoMv ply m =>
-      match s.frames, s.saved with
-      | f :: rest, p :: ps =>
+      match s.frames with
+      | f :: rest =>
           if f.ply ≠ ply then throw "undo: ply mismatch"
-          else if f.current ≠ some m then throw "undo: not the move that was made"
-          else pure { s with pos := p, saved := ps, frames := { f with current := none, lastSearched := some m } :: rest }
-      | _, _ => throw "undo: nothing to undo"
+          else if f.current ≠ some m ∨ f.nullDone then throw "undo: not the move that was made"
+          else pure { s with pos := f.npos, frames := { f with current := none, lastSearched := some m } :: rest }
+      | [] => throw "undo: nothing to undo"
   | .nullDo ply =>
       match s.frames with
       | f :: rest =>
           if f.ply ≠ ply ∨ f.current.isSome ∨ f.nullDone then throw "null: bad state"
-          else pure { s with pos := (doNull T0 s.pos).1, saved := s.pos :: s.saved, frames := { f with nullDone := true } :: rest }
+          else pure { s with pos := (doNull T0 s.pos).1, frames := { f with nullDone := true } :: rest }
       | [] => throw "null: no frame"
   | .nullUndo ply =>
-      match s.frames, s.saved with
-      | f :: rest, p :: ps =>
-          if f.ply ≠ ply ∨ !f.nullDone then throw "nullundo: bad state"
-          else pure { s with pos := p, saved := ps, frames := { f with nullDone := false } :: rest }
-      | _, _ => throw "nullundo: nothing to undo"
+      match s.frames with
+      | f :: rest =>
+          if f.ply ≠ ply ∨ !f.nullDone ∨ f.current.isSome then throw "nullundo: bad state"
+          else pure { s with pos := f.npos, frames := { f with nullDone := false } :: rest }
+      | [] => throw "nullundo: nothing to undo"
   | .pvClear ply =>
       match s.frames with
       | f :: rest => if f.ply = ply then pure { s with pv := s.pv.set ply [], frames := { f with cleared := true } :: rest }
@@ -151,6 +170,7 @@ def stepEv (s : AState) (e : Ev) : Except String AState :=
       match s.frames with
       | f :: _ =>
           if f.ply ≠ ply then throw "pvset: ply mismatch"
+          else if !f.cleared then throw "pvset: before the node cleared its pv slot"
           else match f.moves with
             | some l => if l.contains m then pure { s with pv := s.pv.set ply [m], maxPvLen := max s.maxPvLen 1 }
                         else throw s!"pvset: move {m} not in the node's list"
@@ -161,6 +181,8 @@ def stepEv (s : AState) (e : Ev) : Except String AState :=
       | f :: _ =>
           if f.ply ≠ ply then throw "pvadd: ply mismatch"
           else if f.lastSearched ≠ some m ∨ f.current.isSome then throw s!"pvadd: move {m} is not the move just searched"
+          else if !f.cleared then throw "pvadd: before the node cleared its pv slot"
+          else if !f.childDone then throw s!"pvadd: no node was visited under move {m}, pv[ply+1] is stale"
           else
             let child := s.pv.getD (ply + 1) []
             pure { s with pv := s.pv.set ply (m :: child), maxPvLen := max s.maxPvLen (child.length + 1) }
@@ -215,7 +237,6 @@ def acceptTrace (root : Position) (rootMoves : List Nat) (t : List Ev) : Except 
   | .error e => throw e
   | .ok s =>
       if !s.frames.isEmpty then throw ("end: search not unwound", t.length)
-      else if !s.saved.isEmpty then throw ("end: moves still made", t.length)
       else if s.bestMoves.length ≠ 1 then throw ("end: not exactly one bestmove", t.length)
       else pure s
 
